@@ -13,7 +13,8 @@ seeded/<id>/patch.diff:
 (behaviour-preserving refactors) must be reported by none of the 20 checks.  The scratch copy
 and the redirected evidence are removed at the end.  Results: selftest/RESULTS.json.
 
-usage: tools/selftest.py [--all-checks] [--only name,name,...] [--seeds-only|--mutants-only]
+usage: tools/selftest.py [--all-checks] [--only name,name,...] [--seeds-only|--mutants-only|--refactors-only]
+(selftest/refactors/*.diff: behaviour-preserving patches contributed by sub-agents; no check may report anything)
 Exit status 0 iff every expectation is met (stale / non-compiling mutants are listed and do
 not count as met).
 """
@@ -75,6 +76,7 @@ def main():
         old = json.load(open(rp))
         results["mutants"] = old.get("mutants", {})
         results["seeds"] = old.get("seeds", {})
+        results["refactors"] = old.get("refactors", {})
     ok_all = True
     try:
         subprocess.check_call(["rsync", "-a", "--exclude", "target", "--exclude", ".git", REPO + "/", tree + "/"])
@@ -86,7 +88,7 @@ def main():
             print("baseline", results["baseline"], flush=True)
             if base is None or base:
                 ok_all = False
-        if "--seeds-only" not in args:
+        if "--seeds-only" not in args and "--refactors-only" not in args:
             for m in MUTANTS:
                 name, kind, owners, path, old, new = m[:6]
                 nth = m[6] if len(m) > 6 else None
@@ -125,7 +127,7 @@ def main():
                 ok_all = ok_all and met
                 print(name, kind, "ok" if met else "UNMET", {c: v["rules"][:3] for c, v in res.items()}, flush=True)
                 json.dump(results, open(rp, "w"), indent=1, sort_keys=True)
-        if "--mutants-only" not in args:
+        if "--mutants-only" not in args and "--refactors-only" not in args:
             sd = os.path.join(V, "seeded")
             for s in sorted(os.listdir(sd)):
                 pf = os.path.join(sd, s, "patch.diff")
@@ -157,13 +159,42 @@ def main():
                 ok_all = ok_all and met
                 print(s, "ok" if met else "UNMET", {c: v["rules"][:3] for c, v in res.items()}, flush=True)
                 json.dump(results, open(rp, "w"), indent=1, sort_keys=True)
+        if "--seeds-only" not in args and "--mutants-only" not in args or "--refactors-only" in args:
+            rd = os.path.join(V, "selftest", "refactors")
+            results.setdefault("refactors", {})
+            for s in sorted(os.listdir(rd)) if os.path.isdir(rd) else []:
+                pf = os.path.join(rd, s)
+                name = s[:-5]
+                if not s.endswith(".diff") or (only and name not in only):
+                    continue
+                a = sh(["patch", "-p1", "-s", "-i", pf], cwd=tree)
+                if a.returncode != 0:
+                    sh(["patch", "-p1", "-R", "-s", "-f", "-i", pf], cwd=tree)
+                    results["refactors"][name] = {"status": "stale", "error": a.stdout[-300:]}
+                    print(name, "STALE patch", flush=True)
+                    ok_all = False
+                    continue
+                try:
+                    res, err = evaluate(env, IDS)
+                finally:
+                    sh(["patch", "-p1", "-R", "-s", "-i", pf], cwd=tree)
+                if res is None:
+                    results["refactors"][name] = {"status": "does-not-compile", "error": err[-600:]}
+                    print(name, "DOES NOT COMPILE", flush=True)
+                    ok_all = False
+                    continue
+                met = not res
+                results["refactors"][name] = {"status": "ok" if met else "UNMET", "kind": "silent", "reported_by": res}
+                ok_all = ok_all and met
+                print(name, "silent", "ok" if met else "UNMET", {c: v["rules"][:3] for c, v in res.items()}, flush=True)
+                json.dump(results, open(rp, "w"), indent=1, sort_keys=True)
     finally:
         shutil.rmtree(scratch, ignore_errors=True)
     results["finished"] = time.strftime("%Y-%m-%dT%H:%M:%SZ", time.gmtime())
     results["all_expectations_met"] = ok_all
     json.dump(results, open(rp, "w"), indent=1, sort_keys=True)
-    n = len(results["mutants"]) + len(results["seeds"])
-    bad = [k for d in (results["mutants"], results["seeds"]) for k, v in d.items() if v["status"] != "ok"]
+    n = len(results["mutants"]) + len(results["seeds"]) + len(results.get("refactors", {}))
+    bad = [k for d in (results["mutants"], results["seeds"], results.get("refactors", {})) for k, v in d.items() if v["status"] != "ok"]
     print("selftest: %d cases, %d not met: %s" % (n, len(bad), bad))
     return 0 if ok_all else 1
 
